@@ -66,7 +66,7 @@ def run(tier="quick", seed=1, replay=None):
         if replay:
             cases = [json.loads(l) for l in open(replay) if l.strip()]
         else:
-            consts = dict(base, Weights="{0, 1, 2, 3, 8}", MaxN=3, Ks="<- KsSmall", Ps="<- PsSmall", Ms="<- MsSmall")
+            consts = dict(base, Weights="{0, 1, 2, 3, 8}", MaxN=3 if quick else 4, Ks="<- KsSmall", Ps="<- PsSmall", Ms="<- MsSmall")
             cfg = vf.write_cfg(wd, "MC_Sampler.cfg", consts, MC_BODY)
             vals, r = vf.gen_exhaustive("MC_Sampler", cfg, wd, timeout=3000)
             cov["states"], cov["transitions"] = r["distinct"], r["generated"]
@@ -90,7 +90,7 @@ def run(tier="quick", seed=1, replay=None):
                 vals = [c for c in vals if (h(c) + seed) % 3 == 0]
                 valsx = [c for c in valsx if (h(c) + seed) % 10 == 0]
             cases = [dress(c, "w", i) for i, c in enumerate(vals + sims)] + [dress(c, "x", i) for i, c in enumerate(valsx)]
-            cov["bounds"] = ("exhaustive: every vector of <= 3 effective weights from {0(-Inf),1,2,3,8} x top-k {-1,0,1,2,5} x top-p "
+            cov["bounds"] = (f"exhaustive: every vector of <= {3 if quick else 4} effective weights from {0(-Inf),1,2,3,8} x top-k {-1,0,1,2,5} x top-p "
                              "{-0.5,0,0.3,0.5,0.9,1,1.5} x min-p {-0.1,0,0.1,0.5,1,2} x temperature {<0, 0, >0}"
                              + ("; a 1-in-3 sample of them is replayed in the quick tier" if quick else "; all replayed")
                              + "; simulated: vectors of <= 8 weights up to 200; magnitude classes -Inf, -3e38, 0, 3e38, +Inf; "
